@@ -557,12 +557,92 @@ def _exhaustive_shapes():
     return out
 
 
+# ---- wave 8: machines larger than psutil's 32 KiB read buffer (FILE_READ_BUFFER_SIZE): the per-CPU block of /proc/stat is
+# 40-900 KB.  The record is generated from a few numbers (CPU i has counters base_j + i * step_j) on both sides; Coq ships the
+# size and a checksum of the printed bytes, the number of rows and the rows at the sampled indices (around every 32768-byte
+# boundary), never the whole answer.
+BIG_BUF = 32768
+BIG_TAIL = [("intr", [5, 1]), ("ctxt", [7])]
+
+
+def _big_cpus(n, base, step):
+    return [(i, [b + i * st for b, st in zip(base, step)]) for i in range(n)]
+
+
+def _big_content(case):
+    return pstat(case["total"], _big_cpus(case["n"], case["base"], case["step"]), BIG_TAIL)
+
+
+def _big_cksum(c):
+    a = b = 0
+    for x in c:
+        a += x
+        b += a
+    return a + 1099511627776 * b
+
+
+def _big_lines(case):
+    """[(start offset, length)] of the cpuN lines"""
+    off = len(pstat(case["total"], [], []))
+    out = []
+    for i, vs in _big_cpus(case["n"], case["base"], case["step"]):
+        ln = len(b"cpu%d " % i + b" ".join(b"%d" % v for v in vs) + b"\n")
+        out.append((off, ln))
+        off += ln
+    return out
+
+
+def _big_case(n, nf, width, place, clk=100):
+    """place: where the FIRST buffer boundary falls: 'between' two cpuN lines, inside a 'field', inside the 'label', or 'any'"""
+    base = [10 ** (width - 1) + 7 * j + 1 for j in range(nf)]
+    step = [j + 1 for j in range(nf)]
+    case = None
+    for digits in range(1, 21):
+        for extra in range(nf):
+            # the aggregate line is padded (longer counters) until the boundary falls where it is wanted
+            total = [10 ** (digits - 1 + (1 if j < extra else 0)) - 1 if digits + (1 if j < extra else 0) > 1 else 1 for j in range(nf)]
+            total = [max(t, 1) for t in total]
+            case = {"kind": "big", "cls": "big-n%d-nf%d-w%d-%s" % (n, nf, width, place), "clk": clk, "nf": nf, "total": total, "n": n,
+                    "base": base, "step": step}
+            lines = _big_lines(case)
+            hit = [(o, ln) for o, ln in lines if o <= BIG_BUF < o + ln]
+            if place == "any" or not hit:
+                break
+            rel = BIG_BUF - hit[0][0]
+            lab = len(b"cpu%d" % lines.index(hit[0]))
+            if (place == "between" and rel == 0) or (place == "label" and 0 < rel < lab) or (place == "field" and lab + 3 < rel < hit[0][1] - 3 and
+                                                                                             _big_content(case)[BIG_BUF:BIG_BUF + 1].isdigit()
+                                                                                             and _big_content(case)[BIG_BUF - 1:BIG_BUF].isdigit()):
+                break
+        else:
+            continue
+        break
+    lines = _big_lines(case)
+    size = lines[-1][0] + lines[-1][1]
+    idx = {0, n - 1}
+    for bnd in range(BIG_BUF, size + BIG_BUF, BIG_BUF):
+        js = [j for j, (o, ln) in enumerate(lines) if o <= bnd < o + ln] or [n - 1]
+        for j in js:
+            idx.update(x for x in (j - 1, j, j + 1) if 0 <= x < n)
+    case["idx"] = sorted(idx)
+    return case
+
+
+def gen_big(tier):
+    cases = [_big_case(400, 10, 20, "between"), _big_case(400, 10, 20, "field"), _big_case(400, 10, 20, "label"),
+             _big_case(768, 10, 20, "any"), _big_case(2048, 10, 5, "any", clk=250)]
+    if tier == "thorough":
+        cases += [_big_case(2048, 10, 20, "any"), _big_case(4096, 10, 20, "any"), _big_case(4096, 7, 9, "any", clk=1000)]
+    return cases
+
+
 def gen_cases(rng, tier):
     n = {"quick": 1, "thorough": 10, "search": 2}[tier]
     big = tier == "thorough"
     cases = []
     if tier != "search":
         cases += _exhaustive_shapes() if tier == "thorough" else _exhaustive_shapes()[::7]
+        cases += gen_big(tier)          # systematic, never sampled
     cases += [gen_times(rng) for _ in range(50 * n)]
     cases += [gen_times_raw(rng) for _ in range(40 * n)]
     for flavour, k in (("p", 45), ("tp-safe", 45), ("mixed", 40), ("mixed-any", 18), ("tp-sub", 18)):
@@ -608,6 +688,9 @@ def coq_term(case):
         return "run_times %s %s %s" % (clk, G.nat(case["nf"]), _stat(case["total"], case["cpus"], case["tail"]))
     if k == "times_raw":
         return "run_times_raw %s %s" % (clk, G.by(bytes.fromhex(case["content"])))
+    if k == "big":
+        return "run_big %s %s %s %s %s %s %s" % (clk, G.nat(case["nf"]), G.zs(case["total"]), G.nat(case["n"]), G.zs(case["base"]),
+                                                G.zs(case["step"]), G.lst([G.nat(i) for i in case["idx"]]))
     if k == "script":
         lets = "".join("let s%d := %s in " % (i, _stat(s["total"], list(zip(case["ids"], s["cpus"])), SCRIPT_TAIL))
                        for i, s in enumerate(case["snaps"]))
@@ -691,6 +774,8 @@ def coq_struct(case, raw):
         return {"printed": raw[0], "model": model, "spec": spec}
     if k == "times_raw":
         return {"model": [raw[0], raw[1]], "spec": None}
+    if k == "big":
+        return {"len": raw[0], "cksum": raw[1], "model": raw[2], "spec": Val(raw[3]) if raw[3] is not None else None}
     if k == "script":
         if raw[5] is True and raw[2] is not None and raw[1] != raw[2]:
             # hypotheses of C07_script_all_threads hold, so model = spec is a theorem (both are Qred-normal)
@@ -961,6 +1046,43 @@ def _times_results(psutil):
     return [_shape_outcome(psutil.cpu_times, conv_t), _shape_outcome(lambda: psutil.cpu_times(percpu=True), conv_p)]
 
 
+def _run_big(case, coq, env):
+    content = _big_content(case)
+    if len(content) != coq["len"] or _big_cksum(content) != coq["cksum"]:
+        raise RuntimeError("big: the harness's file differs from the bytes printed by the spec's kernel printer")
+    clk, nf, n = case["clk"], case["nf"], case["n"]
+    rel = lambda c: Fraction(1, 2 ** 48) * max(1, abs(c))  # noqa: E731
+    expect = _big_cpus(n, case["base"], case["step"])
+    cands = [c["a"][0] for c in (coq.get("model"), coq.get("spec")) if isinstance(c, dict) and c.get("t") == "Val"]
+    fr = _Fresh(env, clk, content)
+    try:
+        psutil = fr.psutil
+
+        def call():
+            return (psutil.cpu_times(percpu=True), psutil.cpu_percent(percpu=True), psutil.cpu_times_percent(percpu=True))
+
+        def conv(res):
+            l, p, tp = res
+            if not isinstance(l, list) or not isinstance(p, list) or not isinstance(tp, list):
+                raise _BadShape("percpu results are %r %r %r" % (type(l), type(p), type(tp)))
+            rows = [_row(nt, len(nt._fields)) for nt in l]
+            # every row against the generated record (the same formula as big_stat in coq/C07/Run.v)
+            allok = len(rows) == n and all(len(r) == min(nf, 10) and all(abs(x - Fraction(v, clk)) <= rel(Fraction(v, clk)) for x, v in zip(r, vs))
+                                           for r, (_, vs) in zip(rows, expect))
+            sample = [rows[i] if i < len(rows) else [] for i in case["idx"]]
+            snapped = None
+            for c in cands:
+                snapped = _snap(sample, c[1], rel)
+                if snapped is not None:
+                    break
+            tprows = [_row(nt, len(nt._fields)) for nt in tp]
+            return [len(rows), snapped if snapped is not None else _raw(sample), bool(allok),
+                    len(p), all(_frac(x) == 0 for x in p), len(tprows), all(x == 0 for r in tprows for x in r)]
+        return _shape_outcome(call, conv)
+    finally:
+        fr.close()
+
+
 def impl_run(case, coq, env):
     import time
     k = case["kind"]
@@ -980,6 +1102,8 @@ def impl_run(case, coq, env):
                 # (field names are checked in _row; the number of fields by the comparison with the model/spec row)
                 out.append(_snap_outcome(r, cands, rel) if isinstance(r, dict) and r.get("t") == "Val" else r)
             return out
+        if k == "big":
+            return _run_big(case, coq, env)
         if k in ("script", "script_raw", "life", "nest"):
             return _run_script(case, coq, env, time)
         if k == "proc":
